@@ -40,6 +40,7 @@ type base struct {
 	calls   []BCall
 	startOK bool
 	stopOK  bool
+	diskOK  bool
 	wantBg  *cptvframe.Frame
 	wantT   uint16
 	wantF   *cptvframe.Frame
@@ -63,7 +64,12 @@ func (b *base) WriteFrame(f *cptvframe.Frame) error {
 	b.calls = append(b.calls, BCall{"w", true, f == b.wantF})
 	return nil
 }
-func (b *base) CheckCanRecord() error { return nil }
+func (b *base) CheckCanRecord() error {
+	if !b.diskOK {
+		return errors.New("injected: not enough free disk space")
+	}
+	return nil
+}
 
 type lst struct{ n int }
 
@@ -74,6 +80,7 @@ type Step struct {
 	D      int    `json:"d"`  // ms
 	Ok     *bool  `json:"ok"`  // base start result if it is reached
 	Sok    *bool  `json:"sok"` // base stop result if it is reached
+	Disk   *bool  `json:"disk"` // proc mode: result of the storage layer's free-disk-space check on this frame
 	Motion bool   `json:"motion"`
 }
 type Cfg struct {
@@ -163,7 +170,7 @@ func runOne(out *vh.Out, si int, sc Script) {
 		}
 		minFrames := minLenS * cfg.Fps
 		c := &clk{now: time.Unix(100000, 0)}
-		b := &base{startOK: true, stopOK: true}
+		b := &base{startOK: true, stopOK: true, diskOK: true}
 		l := &lst{}
 		conf := &config.ThermalThrottler{Activate: true, BucketSize: time.Duration(cfg.BucketS) * time.Second,
 			MinRefill: time.Duration(cfg.K*minFrames) * time.Millisecond}
@@ -195,6 +202,8 @@ func runOne(out *vh.Out, si int, sc Script) {
 					raw := vh.RawLepton(cam, uint32(60000+n*100), 0, func(y, x int) uint16 { return v })
 					b.startOK = st.Ok == nil || *st.Ok
 					b.stopOK = st.Sok == nil || *st.Sok
+					b.diskOK = st.Disk == nil || *st.Disk
+					out.Emit(map[string]interface{}{"ev": "pframe", "disk": b.diskOK, "motion": st.Motion})
 					mp.Process(raw)
 				case "reset":
 					b.stopOK = st.Sok == nil || *st.Sok
